@@ -3,7 +3,10 @@
 
 package network
 
-import "sync/atomic"
+import (
+	"net"
+	"sync/atomic"
+)
 
 // Scheduling points of the router for the verification harness (property C10,
 // also used for C09); compiled only with the build tag "verif". With the tag
@@ -33,4 +36,13 @@ func (r *Router) VerifRegistered() int {
 		n += len(arr)
 	}
 	return n
+}
+
+// VerifWrapListener replaces the listener's socket by f(socket), so that the
+// harness can make Accept fail the way the operating system does (EMFILE,
+// ECONNABORTED). To be called before Listen.
+func (t *TCPListener) VerifWrapListener(f func(net.Listener) net.Listener) {
+	t.listeningLock.Lock()
+	defer t.listeningLock.Unlock()
+	t.listener = f(t.listener)
 }
